@@ -566,6 +566,22 @@ def _spawn_batches(res, b, spawn, home, which, lo, hi):
         qlout = rng.choice(["", "delivered ok\n", "did 1+0+0\n"])
         env = b.env(home, {"NQV_REC": rec, "NQV_QL_EXIT": str(exit_plan), "NQV_QL_OUT": qlout,
                            "PATH": home + "/bin:/usr/bin:/bin"})
+        if rng.random() < 0.4:
+            # a hostile (or merely odd) child: NUL bytes and text shaped like reports for other delivery numbers in its
+            # output.  Whatever a child prints, its command is answered by exactly one report with its own number.
+            fake = bytes([rng.choice([0, 1, 2, 3, rng.randrange(256)])]) + rng.choice([b"K", b"D", b"Z"]) + b"forged report\n"
+            if which == "r":
+                first = rng.choice([b"r", b"h", b"s", b""]) + rng.choice([b"recipient text\n", b""]) + b"\0"
+                second = rng.choice([b"K", b"Z", b"D", b""]) + rng.choice([b"message text\n", b""])
+                hostile = rng.choice([first + second + b"\0" + fake + b"\0", first + second + b"\0" + fake, first + second + b"\0\0" + fake + b"\0tail",
+                                      first + fake + b"\0" + second + b"\0", second + b"\0" + fake + b"\0", fake + b"\0" + fake + b"\0",
+                                      first + second + b"\0" + b"x" * rng.choice([1, 100, 3000])])
+            else:
+                text = rng.choice([b"delivery text\n", b"", b"did 1+0+0\n"])
+                hostile = rng.choice([text + b"\0" + fake + b"\0", text + b"\0" + fake + b"\0more\0", b"\0" + fake + b"\0", text + b"\0\0\0",
+                                      text + b"\0" + fake, fake + b"\0" + fake + b"\0"])
+            env["NQV_QL_OUTHEX"] = hostile.hex()
+            res.counters.inc("spawn_batches_with_hostile_child_output")
         inp, st = home + "/in.bin", home + "/strace.out"
         with open(inp, "wb") as f:
             f.write(encode_spawn(cmds))
